@@ -322,7 +322,10 @@ def scenario_part(run):
         c = gdbenv.closure_from_print(m, side='client', conn=int(m['conn']))
         loc = inf.present(c)
         o0 = len(env['out'].buffer)
-        env['bps'][loc].stop()
+        try:
+            env['bps'][loc].stop()
+        except Exception:
+            res.violations.append(sut.exc_violation({'scenario_index': len(gdb_recs)}, 'closure.exception'))
         new = sut._lines(env['out'].buffer[o0:])
         gdb_recs.append([outparse.classify(x)[1] for x in new if outparse.classify(x)[0] == 'message'])
 
